@@ -4,7 +4,7 @@
 (*   e.cfg  = [op, shape, rank, mode]      e.svd, e.iters (tucker only, else 0)                      *)
 (*   e.ten  = [op |-> "matching", shape, idx, vals]  (exact tier; e.data = the entries fed to the     *)
 (*            code) or [op |-> "measured", shape, fam] with e.tails = measured tails of the           *)
-(*            unfoldings relative to ||X||^2 (scale 10^8), e.rkbound = largest measured unfolding rank *)
+(*            unfoldings relative to ||X||^2 (scale 10^8)                                              *)
 (*   e.out  = [raised, ranks, err2_q, fin]   err2_q on the scale of the tails                         *)
 (* Clauses in order: InDomain, Outcome, Ranks, Finite, ExactAtSufficientRank, LowerBound, UpperBound. *)
 EXTENDS SVDDecomp, Json, IOUtils
@@ -24,7 +24,6 @@ MeasuredOK(e) ==
           /\ Len(tj) = mr + 1 /\ IsInts(tj)
           /\ Abs(tj[1] - RelScale) <= 1 /\ tj[mr + 1] = 0          \* Tail(j, 0) = ||X||^2, Tail(j, full) = 0
           /\ \A r \in 1..mr : tj[r] >= tj[r + 1]
-    /\ e.rkbound \in 0..1000
 
 InDomain(e) ==
     /\ ValidCfg(e.cfg)
@@ -33,11 +32,12 @@ InDomain(e) ==
        THEN /\ ValidMatching(e.ten) /\ e.ten.shape = e.cfg.shape /\ e.data = DataOf(e.ten)
             /\ (e.svd = "randomized_svd" => Raises(e.cfg) \/ RandCovered(e.cfg, Len(e.ten.vals)))
        ELSE /\ e.ten.op = "measured" /\ MeasuredOK(e)
-            /\ (e.svd = "randomized_svd" => Raises(e.cfg) \/ RandCovered(e.cfg, e.rkbound))
+            /\ e.svd # "randomized_svd"        \* not an exact method on dense data (no oversampling control here)
 
 Verdict(e) ==
     IF ~InDomain(e) THEN "InDomain"
     ELSE IF e.out.raised # Raises(e.cfg) THEN "Outcome"
+    ELSE IF e.out.raised /\ e.out.exc # "ValueError" THEN "Outcome"
     ELSE IF e.out.raised THEN "ok"
     ELSE IF e.out.ranks # ExpRanks(e.cfg) THEN "Ranks"
     ELSE IF ~e.out.fin THEN "Finite"
